@@ -849,6 +849,10 @@ class TdmsChannel(object):
             raise ValueError("offset must be non-negative")
         if length is not None and length < 0:
             raise ValueError("length must be non-negative")
+        if self.data_type is None:
+            # This channel has no raw data in the file, so there is nothing to read
+            # and the file isn't required (it may already be closed).
+            return None
         if self._reader.is_index_file_only():
             raise RuntimeError("Data cannot be read from index file only")
 
